@@ -171,7 +171,9 @@ func nativeReplayFile(path string) (string, string) {
 			if strings.HasPrefix(l, "func Verif") {
 				n := strings.TrimPrefix(l, "func ")
 				n = n[:strings.Index(n, "(")]
-				names = append(names, n)
+				if isHarnessName(n) {
+					names = append(names, n)
+				}
 			}
 		}
 	}
@@ -191,7 +193,9 @@ func harnessNamesIn(files []harnessFile, pkgRel string) []string {
 			if strings.HasPrefix(l, "func Verif") {
 				n := strings.TrimPrefix(l, "func ")
 				n = n[:strings.Index(n, "(")]
-				names = append(names, n)
+				if isHarnessName(n) {
+					names = append(names, n)
+				}
 			}
 		}
 	}
